@@ -6,7 +6,12 @@ use crate::rng::Rng;
 use crate::scenario::*;
 
 pub mod gen;
+pub mod conv;
 pub mod c01;
+pub mod c06;
+pub mod c07;
+pub mod c08;
+pub mod c10;
 
 #[derive(Clone, Copy, Debug, PartialEq, Eq)]
 pub enum Tier {
@@ -62,7 +67,7 @@ pub trait Campaign: Sync {
 }
 
 pub fn all() -> Vec<&'static dyn Campaign> {
-    vec![&c01::C01]
+    vec![&c01::C01, &c06::C06, &c07::C07, &c07::C17, &c08::C08, &c08::C20, &c10::C10, &c10::C16, &c10::C12]
 }
 
 pub fn by_id(id: &str) -> Option<&'static dyn Campaign> {
